@@ -125,6 +125,11 @@ var checks = map[string]checkCfg{
 		Rule:        "as C18 phase limiter, with one abusive client (IP 0: many arrivals with tiny gaps, far beyond its per-IP/per-connection limits) interleaved with compliant clients and a global limit above the compliant traffic; non-trivial = at least one refusal of the abusive client precedes an arrival of a compliant client; distinct = FNV-64 of the case JSON",
 		Assumptions: append([]string{"virtual clock rewrite as C18", "a client is compliant while every one of its arrivals finds >= 1 token in its own ideal per-IP and per-connection buckets (arrivals, not admissions, drain them)"}, baseAssumptions...),
 		Phases: []phase{{Name: "limiter", Variant: "clock", Tests: "^TestC19$", QuickShards: 4, QuickChecks: 2500, ThoroughShards: 16, ThoroughChecks: 50000, ReplayVariant: true}}},
+	"C20": {Level: "exploration", Technique: "rapid action lists with gated tasks vs per-task accounting inspected after the pool stopped; also under the race detector",
+		Rule:        "each case draws a pool size 1-3 and 2-14 actions over {submit a task blocking on a gate, submit a quick task (each through Submit or SubmitWait), open a gate, Resize to 1-3, Stop}; afterwards every gate is opened, pending Stop/Resize calls are awaited and the pool is stopped; non-trivial = Stop or Resize was issued while >=1 task was queued behind busy workers; distinct = FNV-64 of the case JSON. Interleavings are sampled; blocked submitters are decided by state (pool stopped, workers gone), not by a timeout verdict",
+		Assumptions: baseAssumptions,
+		Phases: []phase{rp("rapid", "^TestC20$", 6, 60, 16, 600),
+			{Name: "race", Variant: "race", Tests: "^TestC20$", QuickShards: 2, QuickChecks: 40, ThoroughShards: 8, ThoroughChecks: 300}}},
 	"C02": {Level: "exploration", Technique: "rapid histories vs POSIX tree model + cached-vs-uncached differential",
 		Rule:        "cases are rapid-generated sequential histories of LOOKUP/CREATE/MKDIR/SYMLINK/REMOVE/RMDIR/RENAME/READDIR(PLUS)/GETATTR/READLINK over names {a,b,c} to depth 3, addressed through every handle ever issued (stale ones included); each history runs under the all-off baseline and k cached configurations (quick 3, thorough 6 of 15); non-trivial = a read-type request on a name or directory affected by an earlier successful mutation, executed under a configuration with at least one cache on; distinct = FNV-64 of the case JSON",
 		Assumptions: append([]string{"documented latitude L1-L7 of DESIGN.md §5 C02 (REMOVE of empty dir, UNCHECKED/EXCLUSIVE on existing objects, error code identity not compared against the model, path-bound handles)"}, baseAssumptions...),
